@@ -1749,7 +1749,9 @@ const divAxioms = `(declare-fun ys.quot (Int Int) Int)
 (assert (forall ((a Int) (b Int)) (! (=> (and (<= 0 a) (< a b)) (= (ys.rem a b) a)) :pattern ((ys.rem a b)))))
 (assert (forall ((a Int) (b Int)) (! (=> (and (<= b a) (< a (* 2 b)) (< 0 b)) (= (ys.rem a b) (- a b))) :pattern ((ys.rem a b)))))
 (assert (forall ((a Int) (b Int)) (! (=> (and (<= 0 a) (< 0 b)) (and (<= 0 (ys.rem a b)) (< (ys.rem a b) b))) :pattern ((ys.rem a b)))))
-(assert (forall ((a Int) (b Int)) (! (=> (and (<= 0 a) (< 0 b)) (and (<= 0 (ys.quot a b)) (<= (ys.quot a b) a))) :pattern ((ys.quot a b)))))`
+(assert (forall ((a Int) (b Int)) (! (=> (and (<= 0 a) (< 0 b)) (and (<= 0 (ys.quot a b)) (<= (ys.quot a b) a))) :pattern ((ys.quot a b)))))
+(assert (forall ((a Int) (b Int)) (! (=> (and (<= a 0) (< 0 b)) (and (<= a (ys.quot a b)) (<= (ys.quot a b) 0))) :pattern ((ys.quot a b)))))
+(assert (forall ((a Int) (b Int)) (! (=> (and (<= 0 a) (< 0 b)) (<= (* b (ys.quot a b)) a)) :pattern ((ys.quot a b)))))`
 
 func (vc *VC) floatOp(op token.Token, a, b Term) Term {
 	switch op {
